@@ -1,5 +1,5 @@
 (* C14, playlist level (Media): Unmarshal (Marshal p) for a value p satisfying the documented
-   requirements, line by line. The faithful model yields the F4 image of p. *)
+   requirements, line by line. *)
 From Coq Require Import List ZArith Bool String Ascii Lia.
 From GoHls Require Import Model.PlaylistBase Model.Playlist Model.PlaylistSpec
   Proofs.PlaylistStr Proofs.PlaylistNum Proofs.PlaylistAttrs Proofs.PlaylistTags Proofs.PlaylistTotal.
@@ -102,6 +102,10 @@ Proof. reflexivity. Qed.
 
 Lemma ml_independent st : media_line orc st "#EXT-X-INDEPENDENT-SEGMENTS" =
   Ok (ms_with_m st (m_set_independent (ms_m st) true)).
+Proof. reflexivity. Qed.
+
+Lemma ml_start st body : media_line orc st ("#EXT-X-START:" ++ body) =
+  do t <- start_unmarshal orc body ;; Ok (ms_with_m st (m_set_start (ms_m st) (Some t))).
 Proof. reflexivity. Qed.
 
 Lemma ml_allowcache st body : media_line orc st ("#EXT-X-ALLOW-CACHE:" ++ body) =
@@ -228,6 +232,26 @@ Proof.
   - destruct setter_eta_media as (E & _). rewrite E in H by exact Hm. exact H.
 Qed.
 
+Lemma m_set_start_none m : m_start m = None -> m_set_start m None = m.
+Proof. intros H. destruct m; simpl in *; subst; reflexivity. Qed.
+
+Lemma hdr_start st : opt_ok (fun t => dur_signed (st_timeoffset t)) st = true ->
+  exists st', opt_eqvb start_eqvb st st' = true
+    /\ match st' with Some t => start_marshal orc t | None => "" end =
+       match st with Some t => start_marshal orc t | None => "" end
+    /\ forall m k cur REST r, m_start m = None -> run (mk (m_set_start m st') k cur) REST r ->
+         run (mk m k cur) (match st with Some t => start_marshal orc t | None => "" end ++ REST) r.
+Proof.
+  intros Hwf. destruct st as [t|]; cbn [opt_ok] in *.
+  - destruct (start_roundtrip orc OK t Hwf) as (t' & Hu & He & Hf).
+    exists (Some t'). split; [exact He|]. split; [exact Hf|]. intros m k cur REST r Hm H.
+    rewrite start_marshal_render.
+    eapply run_tag; [reflexivity|discriminate|apply render_attrs_no_crlf, start_attrs_ok; auto| |exact H].
+    rewrite ml_start, Hu. reflexivity.
+  - exists None. split; [reflexivity|]. split; [reflexivity|]. intros m k cur REST r Hm H.
+    rewrite m_set_start_none in H by exact Hm. exact H.
+Qed.
+
 Lemma hdr_allowcache m k cur (o : option bool) REST r : m_allowcache m = None ->
   run (mk (m_set_allowcache m o) k cur) REST r ->
   run (mk m k cur) (match o with
@@ -253,15 +277,14 @@ Qed.
 
 Lemma hdr_server_control sc :
   opt_ok wf_server_control sc = true ->
-  exists sc', opt_eqvb sc_eqvb (option_map f4_server_control sc) sc' = true
-    /\ (opt_ok sc_canblockreload sc = true ->
-        match sc' with Some t => server_control_marshal orc t | None => "" end =
-        match sc with Some t => server_control_marshal orc t | None => "" end)
+  exists sc', opt_eqvb sc_eqvb sc sc' = true
+    /\ match sc' with Some t => server_control_marshal orc t | None => "" end =
+       match sc with Some t => server_control_marshal orc t | None => "" end
     /\ forall m k cur REST r, m_servercontrol m = None ->
                  run (mk (m_set_servercontrol m sc') k cur) REST r ->
                  run (mk m k cur) (match sc with Some t => server_control_marshal orc t | None => "" end ++ REST) r.
 Proof.
-  intros Hwf. destruct sc as [t|]; cbn [opt_ok option_map] in *.
+  intros Hwf. destruct sc as [t|]; cbn [opt_ok] in *.
   - destruct (server_control_roundtrip orc OK t Hwf) as (t' & Hu & He & Hf).
     exists (Some t'). split; [exact He|]. split; [exact Hf|]. intros m k cur REST r Hm H.
     rewrite server_control_marshal_render.
@@ -299,15 +322,15 @@ Proof.
   rewrite ml_mediasequence, parse_uint_fmt_int by lia. reflexivity.
 Qed.
 
-(* finding F4 (a): the line carries the media sequence number *)
-Lemma hdr_discseq m k cur (ds : option Z) mseq REST r : m_discseq m = None -> 0 <= mseq < 2 ^ 31 ->
-  run (mk (m_set_discseq m (match ds with Some _ => Some mseq | None => None end)) k cur) REST r ->
+Lemma hdr_discseq m k cur (ds : option Z) REST r : m_discseq m = None -> opt_ok int31 ds = true ->
+  run (mk (m_set_discseq m ds) k cur) REST r ->
   run (mk m k cur) (match ds with
-                    | Some _ => "#EXT-X-DISCONTINUITY-SEQUENCE:" ++ fmt_int mseq ++ lf
+                    | Some d => "#EXT-X-DISCONTINUITY-SEQUENCE:" ++ fmt_int d ++ lf
                     | None => "" end ++ REST) r.
 Proof.
-  intros Hm Hv H. destruct ds.
-  - eapply run_tag; [reflexivity|discriminate|apply fmt_int_no_crlf; lia| |exact H].
+  intros Hm Hv H. destruct ds as [d|]; cbn [opt_ok] in Hv.
+  - apply int31_range in Hv.
+    eapply run_tag; [reflexivity|discriminate|apply fmt_int_no_crlf; lia| |exact H].
     rewrite ml_discseq, parse_uint_fmt_int by lia. reflexivity.
   - destruct setter_eta_media as (_ & _ & _ & _ & E & _). rewrite E in H by exact Hm. exact H.
 Qed.
@@ -670,10 +693,10 @@ Ltac media_proj :=
   cbn [m_version m_independent m_start m_allowcache m_targetduration m_servercontrol m_partinf
        m_mediasequence m_discseq m_playlisttype m_map m_skip m_segments m_parts m_preloadhint m_endlist].
 
-Theorem media_roundtrip_f4 p : wf_media p = true ->
+Theorem media_roundtrip p : wf_media p = true ->
   exists p', media_unmarshal orc (media_marshal orc p) = Ok p'
-    /\ media_eqvb (f4_image p) p' = true
-    /\ (opt_ok sc_canblockreload (m_servercontrol p) = true -> media_marshal orc p' = media_marshal orc p).
+    /\ media_eqvb p p' = true
+    /\ media_marshal orc p' = media_marshal orc p.
 Proof.
   unfold wf_media. intros H. split_and H.
   destruct p as [ver indep start ac td sc pi mseq ds pt mp sk segs parts hint endl]. media_proj.
@@ -681,11 +704,13 @@ Proof.
        m_mediasequence m_discseq m_playlisttype m_map m_skip m_segments m_parts m_preloadhint m_endlist] in *.
   assert (Hver1 : 0 <= ver) by (apply Z.leb_le; assumption).
   assert (Hver2 : ver <= maxSupportedVersion) by (apply Z.leb_le; assumption).
+  assert (Hstart : opt_ok (fun t => dur_signed (st_timeoffset t)) start = true) by assumption.
   assert (Htd1 : 0 < td) by (apply Z.ltb_lt; assumption).
   assert (Htd2 : td < 2 ^ 31) by (apply Z.ltb_lt; assumption).
   assert (Hsc : opt_ok wf_server_control sc = true) by assumption.
   assert (Hpi : opt_ok (fun t => dur_pos (pi_parttarget t)) pi = true) by assumption.
   assert (Hms : int31 mseq = true) by assumption. apply int31_range in Hms.
+  assert (Hds : opt_ok int31 ds = true) by assumption.
   assert (Hpt : opt_ok (fun t => String.eqb t "EVENT" || String.eqb t "VOD") pt = true) by assumption.
   assert (Hmp : opt_ok wf_map mp = true) by assumption.
   assert (Hsk : opt_ok (fun t => int31 (sk_skipped t)) sk = true) by assumption.
@@ -694,14 +719,14 @@ Proof.
   assert (Hsticky : keys_sticky false segs = true) by assumption.
   assert (Hparts : forallb wf_part parts = true) by assumption.
   assert (Hhint : opt_ok wf_hint hint = true) by assumption.
+  destruct (hdr_start start Hstart) as (start' & Est & Fst & Rst).
   destruct (hdr_server_control sc Hsc) as (sc' & Esc & Fsc & Rsc).
   destruct (hdr_part_inf pi Hpi) as (pi' & Epi & Fpi & Rpi).
   destruct (segments_run segs None Hsegs Hsticky) as (segs' & lastKey & Esegs & Fsegs & Rsegs).
   destruct (parts_run parts Hparts) as (parts' & Eparts & Fparts & Rparts).
-  set (p' := {| m_version := ver; m_independent := indep; m_start := None; m_allowcache := ac;
+  set (p' := {| m_version := ver; m_independent := indep; m_start := start'; m_allowcache := ac;
                 m_targetduration := td; m_servercontrol := sc'; m_partinf := pi';
-                m_mediasequence := mseq;
-                m_discseq := match ds with Some _ => Some mseq | None => None end;
+                m_mediasequence := mseq; m_discseq := ds;
                 m_playlisttype := pt; m_map := mp; m_skip := sk; m_segments := segs';
                 m_parts := parts'; m_preloadhint := hint; m_endlist := endl |}).
   exists p'. split; [|split].
@@ -712,12 +737,13 @@ Proof.
     { eexists. split.
       - apply hdr_version; [unfold maxSupportedVersion in *; lia|].
         apply hdr_independent; [reflexivity|].
+        apply Rst; [reflexivity|].
         apply hdr_allowcache; [reflexivity|].
         apply hdr_targetduration; [lia|].
         apply Rsc; [reflexivity|].
         apply Rpi; [reflexivity|].
         apply hdr_mediasequence; [lia|].
-        apply hdr_discseq; [reflexivity|lia|].
+        apply hdr_discseq; [reflexivity|exact Hds|].
         apply hdr_playlisttype; [reflexivity|exact Hpt|].
         apply hdr_map; [reflexivity|exact Hmp|].
         apply hdr_skip; [reflexivity|exact Hsk|].
@@ -731,14 +757,13 @@ Proof.
     cbn [bind]. rewrite Ep. unfold p'. media_proj.
     replace (td =? 0) with false by (symmetry; apply Z.eqb_neq; lia).
     rewrite (list_eqvb_nonempty _ _ _ Esegs Hne). reflexivity.
-  - unfold media_eqvb, f4_image, p'. simpl.
-    rewrite !Z.eqb_refl, Esc, Epi, Esegs, Eparts, !eqb_reflx.
+  - unfold media_eqvb, p'. media_proj.
+    rewrite !Z.eqb_refl, Est, Esc, Epi, Esegs, Eparts, !eqb_reflx, opt_eqvb_Z_refl.
     rewrite (opt_eqvb_refl Bool.eqb ac eqb_reflx), (opt_eqvb_refl String.eqb pt String.eqb_refl),
       (opt_eqvb_refl map_eqvb mp map_eqvb_refl), (opt_eqvb_refl hint_eqvb hint hint_eqvb_refl).
     rewrite (opt_eqvb_refl (fun x y => sk_skipped x =? sk_skipped y) sk (fun x => Z.eqb_refl _)).
-    destruct ds; simpl; rewrite ?Z.eqb_refl; reflexivity.
-  - intros Hcbr. unfold media_marshal, p'. media_proj. rewrite (Fsc Hcbr), Fpi, Fsegs, Fparts.
-    destruct ds; reflexivity.
+    reflexivity.
+  - unfold media_marshal, p'. media_proj. rewrite Fst, Fsc, Fpi, Fsegs, Fparts. reflexivity.
 Qed.
 
 End WithOracles.
